@@ -13,6 +13,14 @@ CHECKS = {
          "TLC enumerates supported programs over the universe schema (seeded simulation; exhaustive small bound in the thorough tier) and applies every single invalidating edit of the rule catalogue at every applicable node; TLC itself checks that each edit breaks the reference validity predicate. Each edited document is rendered and fed to the real generator (SDL, introspection JSON and default-root-name renderings), which must never return Ok.",
          "Trusted: TLC, tools/render.py + tools/prog.py (projection, Apply of an edit). Reference validity is written from the GraphQL specification and the property text. Bounds: universe schema family, <=2-3 fragments, <=8 nodes per definition. One known finding (D8) is listed in known_findings.json.",
          "DESIGN.md §5 C06", "model_checking"),
+ "C01": ("TLA+ program generator (ProgGen) + GraphQL execution-shape oracle (Exec.tla) evaluated by TLC; every (program, conforming payload) replayed through rustc-compiled generated types (serde_json from_value / to_value) and compared with the oracle's expected content",
+         "TLC generates supported programs over the universe schema (seeded simulation, covering sample over grammar productions) and, per program, the conforming payloads within distance 1 of the baseline (plus positions exposed by a run-time type flip): each run-time type at each abstract position, null at each nullable position, list lengths 0/1/3, scalar boundary values, IDs as strings and integers. The real generator's output is compiled in consumer crates; every payload must deserialise and re-serialise to the oracle's expected pattern.",
+         "Trusted: TLC, the projection (render.py, prog.py, payload.py), rustc + serde as installed. Bounds: universe schema family, <=2 fragments, <=7 nodes per definition, Fuel 4. Programs whose generated code does not compile are reported by C02/C12, not here.",
+         "DESIGN.md §5 C01", "model_checking"),
+ "C03": ("same TLC run and compiled consumer crates as C01; the oracle's single-point corruptions (null / delete at non-null positions, kind swaps, unknown or swapped __typename) must be rejected, under fragments_other_variant off and on",
+         "For every sampled program TLC derives every single-point corruption of the conforming baseline with its expected verdict (reject; unknown __typename -> Unknown variant iff the option is on; a known __typename selects its own variant). Each is run through the compiled generated types.",
+         "Trusted: as C01. The corruption table contains only swaps that are wrong under the GraphQL specification as well (no Float<-integer, no ID<-integer, no object<-[]).",
+         "DESIGN.md §5 C03", "model_checking"),
 }
 
 
